@@ -44,7 +44,7 @@ def r1(ctx):
         if fn is find:
             # the re-keying accumulator in find: the local that is XOR-ed with shifted telegram bytes
             for nid, d, rhs, op, lhs in fn.assignments():
-                if op == '^=' and d and rhs is not None and '<<' in fn.key(rhs):
+                if op in ('^=', '|=', '+=') and d and rhs is not None and '<<' in fn.key(rhs) and 'dataAt(' in fn.key(rhs):
                     acc = d.split(':')[-1]
         if acc is None:
             raise AnalysisBroken('C08.R1: key accumulator not found in %s' % fn.sig)
@@ -192,6 +192,13 @@ def r2(ctx, find):
             c = f.nodes[l].get('cond')
             if c is not None:
                 bounds.append(f.key(c))
+        # the telegram must carry at least as many data bytes as the ID is long: dataAt() pads a short telegram with
+        # zeros, so without this test an ID with a zero tail matches a telegram that ends before it
+        fulls = f.local_where(lambda k, r: (f.nodes.get(f.strip(r), {}).get('callee') or '').endswith(name.rsplit('::', 1)[0] + '::getIdLength'))
+        short_ok = bool(fulls) and bool(cmps) and all(
+            f.needs_one_of(x, [('(%s.getDataSize() < %s)' % (mname, fulls[0]), False)]) for x in cmps)
+        if not short_ok:
+            problems.append('byte comparison reachable with fewer telegram data bytes than the ID length (no getDataSize() < idLength rejection)')
         if name.endswith('Message::checkId') and 'Chained' not in name:
             full = f.local_where(lambda k, r: k == 'this.getIdLength()')
             if not full or not any(b.endswith(' < %s)' % full[0]) for b in bounds):
